@@ -7,6 +7,7 @@ import re
 
 from ..cfg import cfg_of
 from ..core import AnalysisError, call_name, unparse, walk_no_nested
+from ..pattern import _parse, body_is, find, find_expr, has, has_expr, m_node
 from ..report import Ctx
 
 #: recursive tree methods that deliberately visit *all* members of a catalog, not only the selected one
@@ -68,19 +69,37 @@ def run(ctx: Ctx) -> None:
         body = [unparse(s) for s in g.body]
         base_params = f.positional_params()[1:]
         want_args = ', '.join(params)
-        ok = len(body) == 2 and body[0] == '_, expr = self.selected()' and re.fullmatch(rf'(return )?expr\.{name}\((.*)\)', body[1]) is not None
-        if ok:
-            args = re.fullmatch(rf'(return )?expr\.{name}\((.*)\)', body[1]).group(2)
-            norm = [a.split('=')[-1].strip() for a in args.split(',')] if args else []
-            kws = [a.split('=')[0].strip() for a in args.split(',') if '=' in a]
-            ok = norm == params and all(k in base_params for k in kws) and params == base_params[: len(params)] and len(params) == len(base_params)
+        b = body_is(g.body, f"""
+_U, _E = self.selected()
+return _E.{name}(*__ARGS)
+""".replace('(*__ARGS)', '(' + ', '.join(f'__A{i}' for i in range(len(params))) + ')')) or body_is(g.body, f"""
+_U, _E = self.selected()
+_E.{name}({', '.join(f'__A{i}' for i in range(len(params)))})
+""")
+        ok = b is not None
+        if not ok:
+            # keyword form
+            st = [x for x in g.body if not (isinstance(x, ast.Expr) and isinstance(x.value, ast.Constant))]
+            if len(st) == 2 and body_is(st[:1], '_U, _E = self.selected()') is not None:
+                c = st[1].value if isinstance(st[1], (ast.Return, ast.Expr)) else None
+                recv = body_is(st[:1], '_U, _E = self.selected()')['_E']
+                if isinstance(c, ast.Call) and unparse(c.func) == f'{recv}.{name}':
+                    norm = [unparse(a) for a in c.args] + [unparse(k.value) for k in c.keywords]
+                    kws = [k.arg for k in c.keywords]
+                    ok = norm == params and all(k in base_params for k in kws) and [base_params.index(k) for k in kws] == list(range(len(c.args), len(c.args) + len(kws))) if all(k in base_params for k in kws) else False
+        else:
+            norm = [unparse(b[f'__A{i}'][1]) for i in range(len(params))]
+            ok = norm == params
+        ok = ok and params == base_params[: len(params)] and len(params) == len(base_params)
         ctx.add('C16.T1', f'MultipleExpression.{name}', ok, g, f'{name} forwards to the selected member with ({want_args})' if ok else f'{name}: {body}', str(body))
     for name in ACCESSORS:
         g = M.methods.get(name)
         ok = g is not None
         if ok:
-            body = [unparse(s) for s in g.body]
-            ok = body == ['_, expr = self.selected()', f'return expr.{name}()']
+            ok = body_is(g.body, f"""
+_U, _E = self.selected()
+return _E.{name}()
+""") is not None
         ctx.add('C16.T1', f'MultipleExpression.{name}', ok, g or M, f'{name} is answered by the selected member' if ok else f'{name} does not delegate to the selected member', name)
     ctx.floor('C16.T1', 20)
 
@@ -96,68 +115,132 @@ def run(ctx: Ctx) -> None:
     ok = 'self.selections: list[SelectionTuple] = list(selections)' in unparse(init.node) or 'self.selections = list(selections)' in unparse(init.node)
     ctx.add('C16.T2', 'Configuration.__init__', ok, init, 'the constructor goes through the sorting setter' if ok else 'the constructor bypasses the sorting setter', 'init')
     gs = C.methods['get_string_id']
-    t = unparse(gs.node)
-    ok = "f'{selection.controller}{SELECTION_SEPARATOR}{selection.selection}' for selection in self.selections" in t and 'return SEPARATOR.join(terms)' in t
+    ok = body_is(gs.body, """
+_T = [f'{_S.controller}{SELECTION_SEPARATOR}{_S.selection}' for _S in self.selections]
+return SEPARATOR.join(_T)
+""") is not None or body_is(gs.body, """
+return SEPARATOR.join([f'{_S.controller}{SELECTION_SEPARATOR}{_S.selection}' for _S in self.selections])
+""") is not None
     ctx.add('C16.T2', 'Configuration.get_string_id', ok, gs, 'id = controller:selection terms joined by the separator, in sorted order' if ok else 'get_string_id changed', 'id')
     fs = C.methods['from_string']
-    t = unparse(fs.node)
-    ok = 'terms = string_id.split(SEPARATOR)' in t and 'controller, selection = term.split(SELECTION_SEPARATOR)' in t and 'the_config[controller] = selection' in t and 'return cls.from_dict(the_config)' in t
+    ok = body_is(fs.body, """
+_TERMS = string_id.split(SEPARATOR)
+_CFG = {}
+for _T in _TERMS:
+    try:
+        _C, _S = _T.split(SELECTION_SEPARATOR)
+    except ValueError as _EXC:
+        ___
+        raise BiogemeError(__MSG)
+    _CFG[_C] = _S
+return cls.from_dict(_CFG)
+""") is not None
     ctx.add('C16.T2', 'Configuration.from_string', ok, fs, 'from_string splits on the same two separators' if ok else 'from_string no longer mirrors get_string_id', 'from_string')
     fd = C.methods['from_dict']
-    ok = 'SelectionTuple(controller=controller, selection=selection) for controller, selection in dict_of_selections.items()' in unparse(fd.node)
+    ok = has_expr(fd.node, '(SelectionTuple(controller=_C, selection=_S) for _C, _S in dict_of_selections.items())') or has_expr(fd.node, '[SelectionTuple(controller=_C, selection=_S) for _C, _S in dict_of_selections.items()]')
     ctx.add('C16.T2', 'Configuration.from_dict', ok, fd, 'each (controller, selection) pair becomes one selection' if ok else 'from_dict changed', 'from_dict')
     cv = C.methods.get('_Configuration__check_list_validity') or C.methods.get('__check_list_validity')
     ctx.need(cv is not None, 'Configuration.__check_list_validity')
-    t = unparse(cv.node)
-    ok = 'if item.controller in unique_items:' in t and 'raise excep.BiogemeError(error_msg)' in t and 'unique_items.add(item.controller)' in t
+    ok = body_is(cv.body, """
+_SEEN = set()
+for _I in self.__selections:
+    if _I.controller in _SEEN:
+        ___
+        raise BiogemeError(__MSG)
+    _SEEN.add(_I.controller)
+""") is not None
     ctx.add('C16.T2', 'Configuration.__check_list_validity', ok, cv, 'a controller listed twice is refused' if ok else 'duplicate controllers are no longer refused', 'dups')
     eq = C.methods['__eq__']
     ok = unparse(eq.body[-1]) == 'return self.string_id == other.string_id' and unparse(C.methods['__hash__'].body[-1]) == 'return hash(self.string_id)'
     ctx.add('C16.T2', 'Configuration.__eq__/__hash__', ok, eq, 'configurations are identified by their canonical id' if ok else 'equality / hash no longer use the canonical id', 'eq')
     mi = M.methods['__init__']
-    ok = 'if SEPARATOR in name or SELECTION_SEPARATOR in name:' in unparse(mi.node) and 'raise exceptions.BiogemeError(error_msg)' in unparse(mi.node)
+    ok = has(mi.node, """
+if SEPARATOR in name or SELECTION_SEPARATOR in name:
+    ___
+    raise BiogemeError(__MSG)
+""")
     ctx.add('C16.T2', 'MultipleExpression.__init__', ok, mi, 'catalog names containing a separator are refused' if ok else 'separator characters are accepted in catalog names', 'sep')
     sep = (unparse(cf.assigns.get('SEPARATOR')), unparse(cf.assigns.get('SELECTION_SEPARATOR')))
     ctx.add('C16.T2', 'separators', sep[0] != sep[1] and len(sep[0]) == 3 and len(sep[1]) == 3, cf, f'two distinct one-character separators {sep}' if sep[0] != sep[1] else 'the two separators coincide', str(sep))
     ctrl = prog.cls('controller', 'Controller')
     ac = ctrl.methods['all_configurations']
-    ok = "f'{self.controller_name}{SELECTION_SEPARATOR}{specification}' for specification in self.specification_names" in unparse(ac.node)
+    ok = body_is(ac.body, "return {f'{self.controller_name}{SELECTION_SEPARATOR}{_S}' for _S in self.specification_names}") is not None
     ctx.add('C16.T2', 'Controller.all_configurations', ok, ac, 'controller states are written controller:specification like the terms of a configuration id' if ok else 'Controller.all_configurations no longer produces id terms', 'states')
 
     CC = prog.cls('controller', 'CentralController')
     ci = CC.methods['__init__']
-    t = unparse(ci.node)
-    ok = 'set_of_controllers = expression.get_all_controllers()' in t and 'self.controllers: tuple[Controller, ...] = tuple(sorted(set_of_controllers))' in t
-    ok = ok and 'all_controllers_states = [the_controller.all_configurations() for the_controller in self.controllers]' in t
-    ok = ok and 'SEPARATOR.join(combination) for combination in product(*all_controllers_states)' in t and 'Configuration.from_string(conf_id) for conf_id in self.all_configurations_ids' in t
+    b = find(ci.node, """
+_SET = expression.get_all_controllers()
+self.controllers = tuple(sorted(_SET))
+___
+_STATES = __STATES
+if _STATES:
+    self._number_of_configurations = reduce(lambda _X, _Y: _X * _Y, map(len, _STATES))
+else:
+    self._number_of_configurations = 0
+___
+self.all_configurations_ids = __IDS
+self.all_configurations = __CONFS
+""")
+    ok = b is not None
+    if ok:
+        st = b['_STATES']
+        ok = m_node(_parse('[_C.all_configurations() for _C in self.controllers]')[0].value, b['__STATES'][1], {})
+        ok = ok and m_node(_parse(f'{{SEPARATOR.join(_C) for _C in product(*{st})}}')[0].value, b['__IDS'][1], {})
+        ok = ok and m_node(_parse('{Configuration.from_string(_I) for _I in self.all_configurations_ids}')[0].value, b['__CONFS'][1], {})
     ctx.add('C16.T3', 'CentralController.__init__', ok, ci, 'configurations = product over the states of all controllers of the expression' if ok else 'enumeration of the configurations changed', 'product')
-    ok = 'self._number_of_configurations = reduce(lambda x, y: x * y, map(len, all_controllers_states))' in t
-    ctx.add('C16.T3', 'CentralController:count', ok, ci, 'number of configurations = product of the controller sizes' if ok else 'count of configurations changed', 'count')
+    ctx.add('C16.T3', 'CentralController:count', b is not None, ci, 'number of configurations = product of the controller sizes' if b is not None else 'count of configurations changed', 'count')
     K = prog.cls('catalog', 'Catalog')
     ga = K.methods['get_all_controllers']
     body = [unparse(s) for s in ga.body]
-    ok = body == ['all_controllers = {self.controlled_by}', 'for e in self.children:\n    all_controllers |= e.get_all_controllers()', 'return all_controllers']
+    ok = body_is(ga.body, """
+_ALL = {self.controlled_by}
+for _E in self.children:
+    _ALL |= _E.get_all_controllers()
+return _ALL
+""") is not None
     ctx.add('C16.T3', 'Catalog.get_all_controllers', ok, ga, 'own controller plus the controllers of every member' if ok else f'Catalog.get_all_controllers: {body}', str(body))
     bg = E.methods['get_all_controllers']
-    ok = 'for e in self.children:\n        all_controllers |= e.get_all_controllers()' in unparse(bg.node)
+    BASE = """
+_ALL = set()
+for _E in self.children:
+    _ALL |= _E.get_all_controllers()
+return _ALL
+"""
+    ok = body_is(bg.body, BASE) is not None or body_is(bg.body, "if not self.children:\n    return set()" + BASE) is not None
     ctx.add('C16.T3', 'Expression.get_all_controllers', ok, bg, 'union over all children' if ok else 'base get_all_controllers changed', 'base')
     ki = K.methods['__init__']
-    ok = 'for _, expression in self.named_expressions:\n        self.children.append(expression)' in unparse(ki.node)
+    ok = has(ki.node, """
+for _U, _X in self.named_expressions:
+    self.children.append(_X)
+""")
     ctx.add('C16.T3', 'Catalog.__init__:children', ok, ki, 'every member is a child of the catalog' if ok else 'members are no longer all registered as children', 'children')
     it = prog.cls('expressions.catalog_iterator', 'SelectedExpressionsIterator')
-    t = unparse(it.node)
-    ok = 'self.set_iterator = iter(configurations)' in t and t.count('self.the_expression.configure_catalogs(current_configuration)') == 2 and t.count('current_configuration = next(self.set_iterator)') == 2
+    STEP = """
+_C = next(self.set_iterator)
+self.the_expression.configure_catalogs(_C)
+"""
+    ok = has(it.methods['__init__'].node, "self.set_iterator = iter(configurations)" + STEP) and has(it.methods['__next__'].node, STEP + "return self.the_expression")
     ctx.add('C16.T3', 'SelectedExpressionsIterator', ok, it, 'iteration configures the expression once per configuration of the set' if ok else 'the configuration iterator changed', 'iter')
 
     inc, dec = CC.methods['increased_controller'], CC.methods['decreased_controller']
-    bi = [unparse(s) for s in inc.body]
+    OP = """
+self.set_configuration(current_config)
+_C = self.dict_of_controllers.get(controller_name)
+if _C is None:
+    ___
+    raise BiogemeError(__MSG)
+_C.modify_controller(step=STEP, circular=True)
+_N = self.get_configuration()
+return (_N, step)
+"""
     bd = [unparse(s) for s in dec.body]
-    ok = [x.replace('step=-step', 'step=step') for x in bd] == bi and bd != bi and 'the_controller.modify_controller(step=step, circular=True)' in bi
+    ok = body_is(inc.body, OP.replace('STEP', 'step')) is not None and body_is(dec.body, OP.replace('STEP', '-step')) is not None
     ctx.add('C16.T4', 'increased/decreased_controller', ok, dec, 'decrease = increase with the step negated, both circular' if ok else 'increase and decrease are no longer inverse of each other', str(bd))
     for name in ('increased_controller', 'decreased_controller', 'two_controllers', 'modify_random_controllers'):
         f = CC.methods[name]
         c = cfg_of(f.node)
-        setc = [n for n in walk_no_nested(f.node) if isinstance(n, ast.Expr) and unparse(n.value) == 'self.set_configuration(current_config)']
+        setc = [n for n in walk_no_nested(f.node) if isinstance(n, ast.Expr) and unparse(n.value) == 'self.set_configuration(current_config)']  # current_config is a parameter
         mods = [n for n in walk_no_nested(f.node) if isinstance(n, ast.Call) and call_name(n) == 'modify_controller']
         getc = [n for n in walk_no_nested(f.node) if isinstance(n, ast.Assign) and unparse(n.value) == 'self.get_configuration()']
         ok = len(setc) == 1 and bool(mods) and len(getc) == 1 and all(c.dominates(c.node_of(setc[0]), c.node_of(m)) for m in mods) and all(m.lineno < getc[0].lineno for m in mods)
@@ -166,12 +249,34 @@ def run(ctx: Ctx) -> None:
         ok = ok and all(unparse(r.value).startswith(f'({unparse(getc[0].targets[0])},') for r in rets)
         ctx.add('C16.T4', f'CentralController.{name}', ok, f, 'starts from the given configuration, moves circularly, returns the resulting configuration' if ok else f'{name} no longer has the shape set_configuration / circular moves / get_configuration', name)
     mc = ctrl.methods['modify_controller']
-    t = unparse(mc.node)
-    ok = 'the_size = self.controller_size()' in t and 'new_index = self.current_index + step' in t and 'if circular:\n        self.set_index(new_index % the_size)\n        return step' in t
+    ok = has(mc.node, """
+_SIZE = self.controller_size()
+_NEW = self.current_index + step
+if circular:
+    self.set_index(_NEW % _SIZE)
+    return step
+""")
     ctx.add('C16.T4', 'Controller.modify_controller', ok, mc, 'the circular move reduces the index modulo the controller size' if ok else 'the circular branch of modify_controller changed', 'mod')
     tc = CC.methods['two_controllers']
-    t = unparse(tc.node)
-    ok = "actual_step = step if direction[1] == 'E' else -step" in t and "actual_step = step if direction[0] == 'N' else -step" in t
+    ok = has(tc.node, """
+_C1 = self.dict_of_controllers.get(first_controller_name)
+___
+_C2 = self.dict_of_controllers.get(second_controller_name)
+___
+_S = step if direction[1] == 'E' else -step
+_C1.modify_controller(step=_S, circular=True)
+_S = step if direction[0] == 'N' else -step
+_C2.modify_controller(step=_S, circular=True)
+""") or has(tc.node, """
+_C1 = self.dict_of_controllers.get(first_controller_name)
+___
+_C2 = self.dict_of_controllers.get(second_controller_name)
+___
+_S1 = step if direction[1] == 'E' else -step
+_C1.modify_controller(step=_S1, circular=True)
+_S2 = step if direction[0] == 'N' else -step
+_C2.modify_controller(step=_S2, circular=True)
+""")
     ctx.add('C16.T4', 'CentralController.two_controllers:directions', ok, tc, 'E/W moves the first controller, N/S the second, opposite directions are opposite steps' if ok else 'directions of two_controllers changed', 'dir')
 
     sel = K.methods['selected']
@@ -180,27 +285,69 @@ def run(ctx: Ctx) -> None:
     sn = K.methods['selected_name']
     ok = [unparse(s) for s in sn.body] == ['return self.named_expressions[self.controlled_by.current_index].name']
     ctx.add('C16.T5', 'Catalog.selected_name', ok, sn, 'name of the member at the current index' if ok else 'Catalog.selected_name changed', 'selected_name')
-    t = unparse(ki.node)
-    ok = 'names = [named_expr.name for named_expr in self.named_expressions]' in t and 'controller_names = list(controlled_by.specification_names)' in t and re.search(r'if names != controller_names:\n(.|\n)*?raise BiogemeError', t) is not None
-    ok = ok and 'self.controlled_by = Controller(controller_name=controller_name, specification_names=names)' in t
+    b = find(ki.node, """
+_NAMES = __NAMES
+if controlled_by is None:
+    ___
+    self.controlled_by = Controller(controller_name=__CN, specification_names=_NAMES)
+else:
+    self.controlled_by = controlled_by
+    _CNAMES = list(controlled_by.specification_names)
+    if _NAMES != _CNAMES:
+        ___
+        raise BiogemeError(__MSG)
+""")
+    ok = b is not None and m_node(_parse('[_N.name for _N in self.named_expressions]')[0].value, b['__NAMES'][1], {})
+    if ok:
+        from ..core import inline_locals
+        ok = unparse(inline_locals(ki.node, b['__CN'][1])) == 'catalog_name'
     ctx.add('C16.T5', 'Catalog.__init__:controller', ok, ki, 'an own controller lists the member names; a shared one must list exactly the same names in the same order' if ok else 'compatibility test between catalog and shared controller changed', 'compat')
     si = ctrl.methods['set_index']
-    t = unparse(si.node)
-    ok = 'if index < 0 or index >= self.controller_size():' in t and 'raise BiogemeError(error_msg)' in t and 'self.current_index = index' in t
+    ok = has(si.node, """
+if index < 0 or index >= self.controller_size():
+    ___
+    raise BiogemeError(__MSG)
+self.current_index = index
+""")
     ctx.add('C16.T5', 'Controller.set_index', ok, si, 'an index outside the controller is refused' if ok else 'set_index no longer validates the index', 'set_index')
     sname = ctrl.methods['set_name']
-    t = unparse(sname.node)
-    ok = 'the_index = self.dict_of_index.get(name)' in t and 'self.set_index(the_index)' in t and 'raise BiogemeError(error_msg)' in t
+    ok = body_is(sname.body, """
+_I = self.dict_of_index.get(name)
+if _I is None:
+    ___
+    raise BiogemeError(__MSG)
+self.set_index(_I)
+""") is not None
     ctx.add('C16.T5', 'Controller.set_name', ok, sname, 'a specification is selected by name through the name->index table' if ok else 'set_name changed', 'set_name')
     cinit = ctrl.methods['__init__']
-    ok = 'name: index for index, name in enumerate(self.specification_names)' in unparse(cinit.node)
+    ok = has(cinit.node, 'self.dict_of_index = {_N: _I for _I, _N in enumerate(self.specification_names)}')
     ctx.add('C16.T5', 'Controller.__init__', ok, cinit, 'name->index table enumerates the specification names' if ok else 'name->index table changed', 'table')
     sc = CC.methods['set_configuration']
-    t = unparse(sc.node)
-    ok = 'for selection in configuration.selections:' in t and 'controller: Controller = self.dict_of_controllers.get(selection.controller)' in t and 'controller.set_name(selection.selection)' in t and 'missing_controllers = [name for name, done in properly_set.items() if not done]' in t and t.count('raise BiogemeError(error_msg)') == 2 and 'if missing_controllers:' in t and 'if controller is None:' in t
+    b = body_is(sc.body, """
+_SET = __INIT
+for _S in configuration.selections:
+    _C = self.dict_of_controllers.get(_S.controller)
+    if _C is None:
+        ___
+        raise BiogemeError(__M1)
+    _C.set_name(_S.selection)
+    _SET[_S.controller] = True
+_MISSING = __MISS
+if _MISSING:
+    ___
+    raise BiogemeError(__M2)
+""")
+    ok = b is not None and m_node(_parse('{_K.controller_name: False for _K in self.controllers}')[0].value, b['__INIT'][1], {}) \
+        and m_node(_parse(f'[_N for _N, _D in {b["_SET"]}.items() if not _D]')[0].value, b['__MISS'][1], {})
     ctx.add('C16.T5', 'CentralController.set_configuration', ok, sc, 'every selection is applied to the controller of that name; unknown or missing controllers are refused' if ok else 'set_configuration changed', 'set_configuration')
     gc = CC.methods['get_configuration']
-    ok = 'SelectionTuple(controller=controller.controller_name, selection=controller.current_name()) for controller in self.controllers' in unparse(gc.node)
+    ok = body_is(gc.body, """
+_S = (SelectionTuple(controller=_C.controller_name, selection=_C.current_name()) for _C in self.controllers)
+return Configuration(_S)
+""") is not None or body_is(gc.body, """
+_S = [SelectionTuple(controller=_C.controller_name, selection=_C.current_name()) for _C in self.controllers]
+return Configuration(_S)
+""") is not None
     ctx.add('C16.T5', 'CentralController.get_configuration', ok, gc, 'one selection per controller: its name and its current specification' if ok else 'get_configuration changed', 'get_configuration')
     cn = ctrl.methods['current_name']
     ok = [unparse(s) for s in cn.body] == ['return self.specification_names[self.current_index]']
